@@ -1494,7 +1494,7 @@ class Stream(AbstractStream):
                 self.copy_like(streams[0])
                 if Q: self.H = streams[0].H + Q
             else:
-                self.copy_flow(streams[0])
+                self._imol.mix_from([streams[0]._imol])
         else:
             P = min([i.P for i in streams])
             # Read inlet enthalpies before this stream is modified (it may be one of the inlets)
